@@ -240,6 +240,20 @@ def _vd_index(ex, c, a, d):
     return ex.ctx.ref_to(l.items[i.t])
 
 
+
+def _vd_push(front):
+    def h(ex, c, a, d):
+        from .exec import ENV_PASS, ListV
+        from .builtins import _wr
+        l = _lst(ex, a[0])
+        if l is None or not isinstance(a[0], RefV):
+            return ENV_PASS
+        items = ((a[1],) + tuple(l.items)) if front else (tuple(l.items) + (a[1],))
+        _wr(ex, a[0], ListV(items, l.ty))
+        return UNIT
+    return h
+
+
 def _rest(ex, it):
     """remaining items of a list iterator value, as the values `next` would yield"""
     lst, pos = it.fields
@@ -350,6 +364,8 @@ LIST_ADAPTORS = [
     (rx(r"VecDeque::<.*>::len$"), _vd_len),
     (rx(r"VecDeque::<.*>::is_empty$"), _vd_is_empty),
     (rx(r"VecDeque::<.*>::iter$"), _vd_iter),
+    (rx(r"VecDeque::<.*>::push_front$"), _vd_push(True)),
+    (rx(r"VecDeque::<.*>::push_back$"), _vd_push(False)),
     (rx(r"<VecDeque<.*> as (?:std::ops::|core::ops::)?Index<usize>>::index$"), _vd_index),
     (rx(r" as (?:std::iter::|core::iter::)?Iterator>::take$"), _it_take),
     (rx(r" as (?:std::iter::|core::iter::)?Iterator>::skip$"), _it_skip),
